@@ -292,6 +292,11 @@ def write_evidence(ctx, prop, violations):
         "notes": ctx.notes,
         "timing": ctx.extra,
     }
+    if n_obl == 0:
+        # no property module yet: the proof-level keys would be vacuous, the exploration-style keys carry the evidence
+        del cov["obligations"]
+        del cov["discharged"]
+        cov["note_no_theorems"] = "no Props module exists for this property yet; this run is correspondence + oracle only"
     ev = {
         "property_id": ctx.pid,
         "tier": ctx.tier,
